@@ -278,7 +278,8 @@ class GradOracle(Observer):
             return
         if out.status == "unexp":
             if rec.get("tainted") is False and "model_error" not in rec and not w.grad_poisoned and not getattr(self, "_aborted_before", False):
-                via = ",".join(rec.get("layers") or []) or "plain"
+                lay = rec.get("layers") or []
+                via = "gru" if "gru" in lay else (",".join(lay) or "plain")
                 w.violation(
                     self.prop,
                     f"{self.name}.backward_raised",
@@ -362,7 +363,7 @@ class GradOracle(Observer):
                 if not values_ok:
                     continue
                 ga = np.asarray(g)
-                if ga.shape != e[1].shape or not close(ga, e[1], w.exact, scale, dtype=w.tol_dtype):
+                if ga.shape != e[1].shape or not close(ga, e[1], w.exact and w.tape.integer_valued, scale, dtype=w.tol_dtype):
                     w.violation(
                         self.prop,
                         f"{self.name}.wrong_grad",
@@ -486,7 +487,7 @@ class TapeValueOracle(Observer):
                 if w.violation(self.prop, f"{self.prop}.value_shape", f"step {w.nstep}: handle {h} has shape {d.shape}, functional program gives {e.shape}", tag=f"{self.prop}.value_shape/{ev['k']}:{ev.get('form') or ev.get('op') or ''}"):
                     return
                 continue
-            if not close(d, e, w.exact, tp.vmax, dtype=w.tol_dtype):
+            if not close(d, e, w.exact and tp.integer_valued, tp.vmax, dtype=w.tol_dtype):
                 if w.violation(
                     self.prop,
                     f"{self.prop}.value",
@@ -541,7 +542,7 @@ class CrossScheduleOracle(Observer):
             if not _bytes_equal(d, d0):
                 # sequences may re-associate: values are compared bit-exactly only on certified
                 # exact runs, otherwise against the largest magnitude seen in the run (cancellation)
-                if w.exact or not close(d, d0.astype(np.float64), False, w.tape.vmax, dtype=w.tol_dtype):
+                if (w.exact and w.tape.integer_valued) or not close(d, d0.astype(np.float64), False, w.tape.vmax, dtype=w.tol_dtype):
                     if w.violation(self.prop, f"{self.prop}.schedule_value", f"step {w.nstep}: logical tensor {lh} has different values under schedule {ev['j']}", tag=f"{self.prop}.schedule_value"):
                         return
             if (g is None) != (g0 is None):
@@ -551,7 +552,7 @@ class CrossScheduleOracle(Observer):
             if g is None or nd:
                 continue
             sc = max(1.0, float(np.max(np.abs(g0))) if g0.size else 1.0, rec.get("scale", 1.0)) * max(1.0, w.tape.vmax)
-            ok = np.array_equal(g, g0) if (w.exact and g.dtype == np.float64) else close(g, g0.astype(np.float64), False, sc, dtype=w.tol_dtype)
+            ok = np.array_equal(g, g0) if (w.exact and w.tape.integer_valued and g.dtype == np.float64) else close(g, g0.astype(np.float64), False, sc, dtype=w.tol_dtype)
             if not ok:
                 if w.violation(
                     self.prop,
@@ -712,11 +713,24 @@ class PartialClearOracle(Observer):
         w.probe("c09.tainted_backward_succeeded")
         values_ok = not (rec.get("nondiff") or rec.get("opaque"))
         for h, t in w.T.items():
-            if h in rec["pre_ids"] or h not in exp or t.base is not None:
-                continue  # views (also ones whose family MyGrad has half-forgotten) read their base's gradient
+            if h in rec["pre_ids"] or h not in exp:
+                continue  # live views are judged through their bases
+            was_cleared = h in rec["pre_severed"]  # (before this call)
+            if t.base is not None and not was_cleared:
+                continue  # a never-cleared view whose family MyGrad has half-forgotten still reads its base's gradient
             g = w.read_grad(t, h)
             pre = rec["pre_grads"].get(h)
             if g is None:
+                if exp[h][0] == "val" and was_cleared:
+                    # the traversal reached this cleared tensor (it is a direct input of a recorded
+                    # op): a silent success must have given it the recorded gradient
+                    if w.violation(
+                        "C09",
+                        "C09.silent_missing_grad",
+                        f"step {w.nstep}: backward() through a partially cleared graph returned without error, but handle {h}, a cleared tensor that the terminal's recorded graph consumes directly, has no gradient",
+                        tag="C09.silent_missing_grad/" + ("mutated_after_clear/" if self.mutated_since_clear else "no_inplace_update/") + ("lingering_base" if t.base is not None else "no_base"),
+                    ):
+                        return
                 continue
             ga = np.asarray(g)
             written = pre is None or pre[1] != ga.tobytes() or pre[3] != ga.shape or (pre[0] is not None and pre[0]() is not g)
@@ -735,7 +749,7 @@ class PartialClearOracle(Observer):
                 ):
                     return
                 continue
-            if values_ok and (ga.shape != e[1].shape or not close(ga, e[1], w.exact, rec.get("scale", 1.0), dtype=w.tol_dtype)):
+            if values_ok and (ga.shape != e[1].shape or not close(ga, e[1], w.exact and w.tape.integer_valued, rec.get("scale", 1.0), dtype=w.tol_dtype)):
                 if w.violation(
                     "C09",
                     "C09.wrong_grad",
